@@ -57,6 +57,20 @@ func (n *Node) Walk(target []byte, prune bool) error {
 	return n.withRecovery(func() error { return n.State.Walk(target, prune) })
 }
 
+// WalkBackToBack walks to the given blocks one right after the other, as an engine does when
+// blocks arrive in quick succession: the pool re-admission goroutine of one walk is still running
+// when the next walk starts. Returns when every re-admission has finished.
+func (n *Node) WalkBackToBack(targets ...[]byte) error {
+	return n.withRecovery(func() error {
+		for _, id := range targets {
+			if err := n.State.Walk(id, false); err != nil {
+				return err
+			}
+		}
+		return nil
+	})
+}
+
 // withRecovery runs f (which may call State.Walk any number of times) and then waits for every
 // pool recovery goroutine those walks started. A walk announces the goroutine synchronously,
 // before it returns: "utxo walk finish" on success, "walk failed, recover unconfirm tx" on a
